@@ -102,6 +102,35 @@ Theorem C03_overlay_failed_append_keeps_tree : forall lg ft (s0 s1 : mstate) hs 
     forall q, user_path q -> view s0' s1 q = view s0 s1 q.
 Proof. exact append_lower_dir_fails. Qed.
 
+(** ** finding D31 (recorded, not repaired): layers that CONFLICT in type.  A file /x in the write layer over a
+    directory /x with a child /x/c in the lower layer: the overlay shows /x as a file and still resolves /x/c
+    below it - the union is not a tree from the start.  (The [view_tree] theorems above assume a tree to begin
+    with; this is the state they exclude, exhibited on the model and, by the check, on the code.) *)
+Theorem C03_layer_type_conflict_witness :
+  let file := mkMemFile File [104%N] TAuto (Some TAuto) (Some TAuto) in
+  let dir := mkMemFile Dir [] TAuto (Some TAuto) (Some TAuto) in
+  let s0 : mstate := <[[[120%N]] := file]> mem_new in
+  let s1 : mstate := <[[[120%N]; [99%N]] := file]> (<[[[120%N]] := dir]> mem_new) in
+  wf s0 /\ wf s1 /\
+  snd (run bhandler (ovl_metadata (v0, []) [(v1, [])] [[120%N]]) (mstore2 s0 s1 [] [] None)) = Ok (mem_meta file) /\
+  snd (run bhandler (ovl_exists (v0, []) [(v1, [])] [[120%N]; [99%N]]) (mstore2 s0 s1 [] [] None)) = Ok true.
+Proof.
+  cbn zeta. split; [|split; [|split; vm_compute; reflexivity]].
+  - split; [eexists; split; [vm_compute; reflexivity|reflexivity]|].
+    intros p n f H. apply lookup_insert_Some in H as [[E _]|[_ H]].
+    + change [[120%N]] with ([] ++ [[120%N]]) in E. apply snoc_inj in E as [<- _].
+      eexists. split; [vm_compute; reflexivity|reflexivity].
+    + unfold mem_new in H. apply lookup_singleton_Some in H as [E _]. destruct p; discriminate.
+  - split; [eexists; split; [vm_compute; reflexivity|reflexivity]|].
+    intros p n f H. apply lookup_insert_Some in H as [[E _]|[_ H]].
+    + change [[120%N]; [99%N]] with ([[120%N]] ++ [[99%N]]) in E. apply snoc_inj in E as [<- _].
+      eexists. split; [vm_compute; reflexivity|reflexivity].
+    + apply lookup_insert_Some in H as [[E _]|[_ H]].
+      * change [[120%N]] with ([] ++ [[120%N]]) in E. apply snoc_inj in E as [<- _].
+        eexists. split; [vm_compute; reflexivity|reflexivity].
+      * unfold mem_new in H. apply lookup_singleton_Some in H as [E _]. destruct p; discriminate.
+Qed.
+
 Print Assumptions C03_initial.
 Print Assumptions C03_sections.
 Print Assumptions C03_trait_calls.
@@ -114,3 +143,4 @@ Print Assumptions C03_overlay_create_file_keeps_tree.
 Print Assumptions C03_overlay_remove_file_keeps_tree.
 Print Assumptions C03_overlay_remove_dir_keeps_tree.
 Print Assumptions C03_overlay_failed_append_keeps_tree.
+Print Assumptions C03_layer_type_conflict_witness.
